@@ -285,10 +285,19 @@ def val2bytes(val, att: str) -> bytes:
     except KeyError as err:
         raise ube.UBXTypeError(f"Unknown attribute type {att}") from err
 
+    if atttyp(att) in ("A", "C", "X") and attsiz(att) >= 0:
+        lenv = len(val.encode("utf-8", "backslashreplace") if isinstance(val, str) else val)
+        # sequence must fill the attribute exactly (short char values are null-padded)
+        if lenv > attsiz(att) or (lenv < attsiz(att) and atttyp(att) != "C"):
+            raise ube.UBXTypeError(
+                f"Attribute type {att} value {val} must have length {attsiz(att)}, not {lenv}"
+            )
+
     if atttyp(att) == "X":  # byte
         valb = val
     elif atttyp(att) == "C":  # char
         valb = val.encode("utf-8", "backslashreplace") if isinstance(val, str) else val
+        valb = valb.ljust(attsiz(att), b"\x00")
     elif atttyp(att) in ("E", "I", "L", "U"):  # integer
         valb = val.to_bytes(attsiz(att), byteorder="little", signed=atttyp(att) == "I")
     elif atttyp(att) == "R":  # floating point
